@@ -42,6 +42,14 @@ const (
 	markEnd   = "/verif-marker-end"
 )
 
+func init() {
+	// Locking in init keeps the main goroutine on the process's main thread
+	// (a later LockOSThread would pin it to whatever thread it happens to run on).
+	if os.Getenv("VERIF_CHILD") == "victim" {
+		runtime.LockOSThread()
+	}
+}
+
 // victimMain runs in the re-executed test binary (VERIF_CHILD=victim). The
 // main goroutine is wired to the main thread so that the file-system calls of
 // the operation appear on one thread in a deterministic order.
@@ -220,11 +228,22 @@ func runVictim(dir string, op VictimOp, maxChain int, inject string) (*VictimRun
 // per-name ordinals counted from process start (what strace's when= counts).
 func parseTrace(raw, dir string) []SysCall {
 	lines := strings.Split(raw, "\n")
+	// the thread that runs the operation is the one that issued the begin marker
 	mainTid := ""
 	for _, l := range lines {
-		if m := lineRe.FindStringSubmatch(l); m != nil {
-			mainTid = m[1] // the first traced call is the execve'd main thread
-			break
+		if strings.Contains(l, markBegin) {
+			if m := lineRe.FindStringSubmatch(l); m != nil {
+				mainTid = m[1]
+				break
+			}
+		}
+	}
+	if mainTid == "" {
+		for _, l := range lines {
+			if m := lineRe.FindStringSubmatch(l); m != nil {
+				mainTid = m[1]
+				break
+			}
 		}
 	}
 	counts := map[string]int{}
